@@ -234,10 +234,17 @@ def run_impl(modname, fam, cases):
         obs, err = _run_impl_shard(modname, fam, shard, fam.case_timeout * len(shard) + 30)
         if obs is not None:
             return obs
-        # isolate the culprit(s)
+        # isolate the culprit(s); once two cases have hung on their own the rest of the shard is not retried
+        # one by one (a tree on which everything hangs would otherwise take hours to report the obvious)
         out = []
+        hangs = 0
         for c in shard:
+            if hangs >= 2:
+                out.append({"driver_crash": "not run: earlier cases of this shard hung", "hang": True})
+                continue
             o, e = _run_impl_shard(modname, fam, [c], fam.case_timeout + 20)
+            if o is None and e == "timeout":
+                hangs += 1
             out.append(o[0] if o is not None else {"driver_crash": e, "hang": e == "timeout"})
         return out
 
